@@ -126,7 +126,12 @@ impl<'a> Live<'a> {
     pub fn new(c: &Case) -> Live<'a> {
         let src = SchedSource::new(c.data.clone(), c.fault, c.sched.clone());
         let mut r = if c.pre.is_empty() && c.pre_consumed == 0 {
-            DeferredReader::from_read(src.clone())
+            // both constructors of a plain `Read` (the model does not distinguish them)
+            if (c.data.len() + c.ops.len() + c.chunk) % 2 == 1 {
+                DeferredReader::from_boxed_dyn_read(Box::new(src.clone()))
+            } else {
+                DeferredReader::from_read(src.clone())
+            }
         } else {
             // a BufReader that already holds `pre` and from which `m` bytes were consumed
             let mut head = vec![0xEEu8; c.pre_consumed];
@@ -260,7 +265,9 @@ impl<'a> Live<'a> {
                 }
                 None => "panic".into(),
             },
-            Op::Ra(k) => match catch(|| self.r.request_byte_at_offset(k)) {
+            // `request_byte()` is `request_byte_at_offset(0)` in the model: every other `ra0` goes
+            // through that entry point
+            Op::Ra(k) => match catch(|| if k == 0 && i % 2 == 1 { self.r.request_byte() } else { self.r.request_byte_at_offset(k) }) {
                 Some(Some(b)) => {
                     if self.stream_byte(self.cursor + k) != Some(b) {
                         self.fail(i, format!("request_byte_at_offset({}) = {} differs from stream", k, b));
@@ -371,6 +378,9 @@ impl<'a> Live<'a> {
         };
         // ---- observation + state oracle ----
         let blen = self.r.buf_len();
+        if self.r.buf_ptr() != self.r.buf().as_ptr() {
+            self.fail(i, "buf_ptr() exceeds all data: it is not the start of buf()".into());
+        }
         let stream_len = self.stream_len();
         let window: Option<Vec<u8>> = if blen <= self.total_len {
             Some(self.r.buf().to_vec())
